@@ -127,4 +127,9 @@ def units():
                              'int main() { %sFactored::FactorGraph<%sVector> g(2); %sFactored::Action A{2, 2}; return (int)%sFactored::buildAdjacencyList(A, g).size(); }\n' % (A, A, A, A)})
     except OSError:
         pass
+    # FlattenedModel<Dist>::convertA: a documented member of a class template (explicit instantiation only instantiates DEFINED members)
+    U.append({'id': 'link:FlattenedModel::convertA', 'link': True,
+              'src': '#include <random>\n#include <AIToolbox/Factored/Bandit/FlattenedModel.hpp>\n'
+                     'int main() { using D = std::bernoulli_distribution; %sFactored::Bandit::Model<D> * m = nullptr; if (!m) return 0; '
+                     '%sFactored::Bandit::FlattenedModel<D> f(*m); return (int)f.convertA(1).size(); }\n' % (A, A)})
     return [u for u in U if u]
